@@ -301,7 +301,7 @@ def main():
     quick = rep.tier == "quick"
     schemas = S.corpus() + S.random_schemas(rep.seed, 3 if quick else 60) + S.clash_schemas(rep.seed, 6 if quick else 60)
     schemas += [hostile_text_schema(), float_literal_schema(), oddities_schema(),
-                libnames_schema(), sole_dependency_schema(), path_concat_schema(), S.self_clash_schema(), S.internal_names_schema(), signed_headers_schema()] + group_libnames_schemas() + \
+                libnames_schema(), sole_dependency_schema(), path_concat_schema(), S.self_clash_schema(), S.internal_names_schema(), signed_headers_schema()] + S.package_name_clash_schemas() + group_libnames_schemas() + \
         S.pair_clash_schemas()
     sparse = S.pair_clash_schemas(sparse=True)
     if quick:
